@@ -28,6 +28,8 @@ pub enum VOp {
     AddSmall { s: u8, y: u64 },
     MulSmall { s: u8, y: u64 },
     CloneTo { dst: u8, src: u8 },
+    /// `dst.clone_from(&src)` (part of `Clone`)
+    CloneFrom { dst: u8, src: u8 },
     Write { s: u8, i: usize, x: u64 },
     IterMutXor { s: u8, x: u64 },
     Eq { a: u8, b: u8 },
@@ -50,6 +52,7 @@ impl VOp {
             VOp::AddSmall { .. } => "op.add_small",
             VOp::MulSmall { .. } => "op.mul_small",
             VOp::CloneTo { .. } => "op.clone",
+            VOp::CloneFrom { .. } => "op.clone_from",
             VOp::Write { .. } => "op.deref_mut_write",
             VOp::IterMutXor { .. } => "op.iter_mut",
             VOp::Eq { .. } => "op.eq",
@@ -71,6 +74,7 @@ impl VOp {
             VOp::AddSmall { .. } => "add_small",
             VOp::MulSmall { .. } => "mul_small",
             VOp::CloneTo { .. } => "clone",
+            VOp::CloneFrom { .. } => "clone_from",
             VOp::Write { .. } => "deref_mut_write",
             VOp::IterMutXor { .. } => "iter_mut",
             VOp::Eq { .. } => "eq",
@@ -196,7 +200,7 @@ pub fn apply_model(op: &VOp, m: &mut [Vec<u64>; NSLOTS], cap: Option<usize>) -> 
                 Expect::Arith(false)
             }
         },
-        VOp::CloneTo { dst, src } => {
+        VOp::CloneTo { dst, src } | VOp::CloneFrom { dst, src } => {
             let c = m[*src as usize].clone();
             m[*dst as usize] = c;
             Expect::Plain
@@ -337,6 +341,21 @@ pub fn run_case<W: World>(case: &VecCase, stats: &mut Stats) -> Result<VecRunInf
             (VOp::CloneTo { dst, src }, _) => {
                 let c = imp[*src as usize].clone();
                 imp[*dst as usize] = c;
+            },
+            (VOp::CloneFrom { dst, src }, _) => {
+                if dst != src {
+                    let c = imp[*src as usize].clone();
+                    imp[*dst as usize].clone_from(&c);
+                    // and straight from the other slot, without the intermediate clone
+                    let (a, b) = if dst < src {
+                        let (l, r) = imp.split_at_mut(*src as usize);
+                        (&mut l[*dst as usize], &r[0])
+                    } else {
+                        let (l, r) = imp.split_at_mut(*dst as usize);
+                        (&mut r[0], &l[*src as usize])
+                    };
+                    a.clone_from(b);
+                }
             },
             (VOp::Write { s, i, x }, _) => {
                 let v = &mut imp[*s as usize];
@@ -640,7 +659,14 @@ pub fn gen_case(seed: u64, world: usize, alloc: bool, native_poison: bool, max_o
                 10 | 11 => VOp::Normalize { s },
                 12 | 13 => VOp::AddSmall { s, y: limb(&mut r) },
                 14 | 15 => VOp::MulSmall { s, y: limb(&mut r) },
-                16 => VOp::CloneTo { dst: s, src: r.below(NSLOTS as u64) as u8 },
+                16 => {
+                    let src = r.below(NSLOTS as u64) as u8;
+                    if r.chance(1, 2) {
+                        VOp::CloneTo { dst: s, src }
+                    } else {
+                        VOp::CloneFrom { dst: s, src }
+                    }
+                },
                 17 | 18 => VOp::Write { s, i: r.usize_below(64), x: limb(&mut r) },
                 19 => VOp::IterMutXor { s, x: limb(&mut r) },
                 20 => VOp::Eq { a: s, b: r.below(NSLOTS as u64) as u8 },
